@@ -299,8 +299,13 @@ E2E_CASES = [
     "hx_select_e2e::sel::shape::String::2", "hx_select_e2e::sel::quick::gen::i32",
     "hx_select_e2e::sel::dup_args::7", "hx_select_e2e::sel::dup_args::8", "hx_select_e2e::sel::lossy::1", "hx_select_e2e::sel::lossy::2",
     "hx_select_e2e::sel::dup_args::7", "hx_select_e2e::sel::lossy::1",
+    "hx_select_e2e::sel::nest::Option<u8>", "hx_select_e2e::sel::nest::Vec<core::option::Option<u8>>", "hx_select_e2e::sel::nest::Vec<u8>",
+    "hx_select_e2e::sel::nest::HashMap<u64, alloc::vec::Vec<u8>>", "hx_select_e2e::sel::nestc::Vec<core::option::Option<u8>>::1",
+    "hx_select_e2e::sel::nestc::Option<u8>::2", "hx_select_e2e::sel::refs::String", "hx_select_e2e::sel::refs::&alloc::string::String",
 ]
-E2E_INNER = ["hx_select_e2e::sel::quick", "hx_select_e2e::sel::quick::gen", "hx_select_e2e::sel::shape::String", "hx_select_e2e::sel::shape",
+E2E_INNER = ["hx_select_e2e::sel::nest", "hx_select_e2e::sel::nestc::Vec<core::option::Option<u8>>", "hx_select_e2e::sel::nestc::Option<u8>",
+             "hx_select_e2e::sel::nest::Option<u8>>", "hx_select_e2e::sel::nest::Vec<Option<u8>>", "hx_select_e2e::sel::nestc::Option<u8>>::1",
+             "hx_select_e2e::sel::nest::Vec<u8>>", "hx_select_e2e::sel::refs::&String", "hx_select_e2e::sel::refs::&'static String","hx_select_e2e::sel::quick", "hx_select_e2e::sel::quick::gen", "hx_select_e2e::sel::shape::String", "hx_select_e2e::sel::shape",
              "hx_select_e2e::sel::shape::Square", "hx_select_e2e::sel::fast::gen::i32", "hx_select_e2e::sel::shape::alloc::string::String::1",
              "hx_select_e2e::sel::shape::hx_select_e2e::sel::Square::1","hx_select_e2e::sel::alpha", "hx_select_e2e::sel::alpha::beta", "hx_select_e2e::sel::Grp", "hx_select_e2e::sel::with_args",
              "hx_select_e2e", "hx_select_e2e::sel", "hx_select_e2e::sel::both::i32", "hx_select_e2e::sel::grp", "hx_select_e2e::sel::orig",
